@@ -1,6 +1,8 @@
 //! C03: shadow-model monitor for tiny-std's Dlmalloc (private instance).
 //!
-//!   c03 hist  <seed> <nops> [w=<start>+<len>,...] [k=<sweep period>] [k1from=<op>] [style=<n>]
+//!   c03 hist  <seed> <nops> [w=<start>+<len>,...] [s=<start>+<len>:<r|R|u|U|b>,...] [k=<sweep period>] [k1from=<op>] [style=<n>]
+//!       s= : around the allocator calls of these op indices the ptrace monitor sysmon (the process must run under it)
+//!            is told to FAIL mremap (r: ENOMEM, R: EINVAL), munmap (u: ENOMEM, U: EINVAL) or both (b: ENOMEM)
 //!       one history in this process; prints '@@' lines; exit 0 ok, 3 violation reported,
 //!       4/5 harness crash / watchdog, 6 block corruption seen at a sweep (parent narrows down)
 //!   c03 batch <seed> <budget> tier=<quick|thorough> shard=<i>/<n>
@@ -11,6 +13,8 @@ use std::collections::{BTreeMap, BTreeSet};
 use std::sync::atomic::Ordering::Relaxed;
 use tiny_std::allocator::dlmalloc::{Dlmalloc, VerifStats};
 use vh::Rng;
+#[path = "/verif/engines/sysmon/marker.rs"]
+mod marker;
 
 const K_MALLOC: u8 = 0;
 const K_CALLOC: u8 = 2;
@@ -327,7 +331,18 @@ impl Gen {
             _ => 20,
         };
         let roll = self.r.below(100);
-        if n > 0 && self.r.chance(15, 100) {
+        if self.style == 5 && n > 0 && sh.map.contains_key(&self.last_top_block) && self.r.chance(1, 4) {
+            // trim-heavy: work on the block bordering on top: shrink it in place (the tail joins top) or free it
+            // (top may cross the trim threshold: sys_trim, release_unused_segments)
+            let addr = self.last_top_block;
+            let old = sh.map[&addr].size;
+            return match self.r.below(3) {
+                0 => Op::Free { addr },
+                1 => Op::Realloc { addr, new_size: (old * 4 / 7).max(1) },
+                _ => Op::Realloc { addr, new_size: (old / 2 + self.r.below(4096) as usize).max(1) },
+            };
+        }
+        if n > 0 && self.r.chance(if self.style == 5 { 25 } else { 15 }, 100) {
             let addr = sh.order[self.r.below(n as u64) as usize];
             let old = sh.map[&addr].size;
             let new_size = if self.r.chance(1, 400) {
@@ -423,7 +438,7 @@ impl Hist {
             self.nops,
             vh::js(&self.faultspec),
             vh::js(if cfg!(debug_assertions) { "debug" } else { "release" }),
-            vh::js(&format!("c03 hist {} {} w={}", self.seed, self.nops, self.faultspec))
+            vh::js(&format!("c03 hist {} {} {}", self.seed, self.nops, self.faultspec))
         )
     }
     fn recent_json(&self) -> String {
@@ -471,12 +486,15 @@ fn classify_free(b: &VerifStats, a: &VerifStats) -> &'static str {
 
 fn hist(seed: u64, nops: u64, rest: &[String]) -> i32 {
     let mut faultspec = String::new();
+    let mut sysspec = String::new();
     let mut k: u64 = 0;
     let mut k1from: u64 = u64::MAX;
     let mut style = seed % 5;
     for a in rest {
         if let Some(v) = a.strip_prefix("w=") {
             faultspec = v.to_string();
+        } else if let Some(v) = a.strip_prefix("s=") {
+            sysspec = v.to_string();
         } else if let Some(v) = a.strip_prefix("k=") {
             k = v.parse().unwrap_or(0);
         } else if let Some(v) = a.strip_prefix("k1from=") {
@@ -486,13 +504,24 @@ fn hist(seed: u64, nops: u64, rest: &[String]) -> i32 {
         }
     }
     let windows = parse_windows(&faultspec);
+    // (start, len, kind) with kind one of r R u U b
+    let syswin: Vec<(u64, u64, u8)> = sysspec
+        .split(',')
+        .filter_map(|part| {
+            let (w, kind) = part.split_once(':')?;
+            let (a, b) = w.split_once('+')?;
+            Some((a.parse().ok()?, b.parse().ok()?, *kind.as_bytes().first()?))
+        })
+        .collect();
+    // everything needed to re-run this history, as arguments
+    let argspec = format!("w={faultspec} s={sysspec} style={style}");
     if k == 0 {
         k = if nops <= 400 { 8 } else { 64 };
     }
     H_SEED.store(seed, Relaxed);
     H_NOPS.store(nops, Relaxed);
     OP_KIND.store(7, Relaxed);
-    set_faultspec(&faultspec);
+    set_faultspec(&argspec);
     rlimit_init();
     install_crash_handlers();
     set_alarm(if cfg!(debug_assertions) { 600 } else { 300 });
@@ -540,7 +569,12 @@ fn hist(seed: u64, nops: u64, rest: &[String]) -> i32 {
         realloc_moved: 0,
         usable_after_refusal: 0,
     };
-    let mut h = Hist { seed, nops, faultspec: faultspec.clone(), recent: std::collections::VecDeque::new() };
+    let mut h = Hist { seed, nops, faultspec: argspec.clone(), recent: std::collections::VecDeque::new() };
+    if !syswin.is_empty() && !marker::traced() {
+        vh::inconclusive("s= windows need the process to run under sysmon");
+        return 0;
+    }
+    let mut sys_calls = 0u64;
     let mut last_clean: u64 = 0;
     let mut had_refusal = false;
     let mut oom_samples = 0;
@@ -549,7 +583,7 @@ fn hist(seed: u64, nops: u64, rest: &[String]) -> i32 {
 
     macro_rules! viol {
         ($sig:expr, $i:expr, $($fmt:tt)*) => {{
-            vh::viol(&$sig, &format!("{{{},{},\"recent_ops\":{}}}", format!($($fmt)*), h.ctx($i), h.recent_json()));
+            vh::viol(&tagged(&$sig), &format!("{{{},{},\"recent_ops\":{}}}", format!($($fmt)*), h.ctx($i), h.recent_json()));
             rc = 3;
         }};
     }
@@ -557,6 +591,7 @@ fn hist(seed: u64, nops: u64, rest: &[String]) -> i32 {
     let mut i: u64 = 0;
     'ops: while i < nops {
         let refusing = windows.iter().any(|&(s, l)| i >= s && i < s + l);
+        let sysfail = syswin.iter().find(|&&(s, l, _)| i >= s && i < s + l).map(|w| w.2);
         {
             let st = a.verif_stats();
             g.topsize = st.topsize;
@@ -584,7 +619,16 @@ fn hist(seed: u64, nops: u64, rest: &[String]) -> i32 {
         if h.recent.len() >= 24 {
             h.recent.pop_front();
         }
-        h.recent.push_back(format!("{i}:{kname} size={size} align={align} new_size={new_size}{}", if refusing { " [kernel refusing]" } else { "" }));
+        h.recent.push_back(format!(
+            "{i}:{kname} size={size} align={align} new_size={new_size}{}{}",
+            if refusing { " [kernel refusing]" } else { "" },
+            match sysfail {
+                Some(b'r') | Some(b'R') => " [mremap fails]",
+                Some(b'u') | Some(b'U') => " [munmap fails]",
+                Some(_) => " [mremap+munmap fail]",
+                None => "",
+            }
+        ));
         c.ops[kind as usize] += 1;
 
         // the block an op consumes must still carry what its owner wrote
@@ -592,7 +636,7 @@ fn hist(seed: u64, nops: u64, rest: &[String]) -> i32 {
             let b = sh.map[&addr].clone();
             if let Some(off) = unsafe { verify(addr, b.size, b.seed, b.size) } {
                 vh::viol(
-                    "C03/narrow/live-block-changed",
+                    &tagged("C03/narrow/live-block-changed"),
                     &format!(
                         "{{\"detected\":\"before {kname}\",\"block_size\":{},\"block_align\":{},\"offset\":{},\"clean_at\":{},{},\"recent_ops\":{}}}",
                         b.size, b.align, off, last_clean, h.ctx(i), h.recent_json()
@@ -608,6 +652,19 @@ fn hist(seed: u64, nops: u64, rest: &[String]) -> i32 {
         // ---- the allocator call, alone inside the refusal window --------------------------
         if refusing {
             refuse_on();
+        }
+        if let Some(kind) = sysfail {
+            // from now until DISARM every mremap / munmap of this thread is not executed and fails
+            sys_calls += 1;
+            let many = 1i64 << 40;
+            if matches!(kind, b'r' | b'R' | b'b') {
+                FAULT_TAG.fetch_or(1, Relaxed);
+                marker::inject(marker::SCOPE_THREAD, 25, 0, if kind == b'R' { -22 } else { -12 }, many);
+            }
+            if matches!(kind, b'u' | b'U' | b'b') {
+                FAULT_TAG.fetch_or(2, Relaxed);
+                marker::inject(marker::SCOPE_THREAD, 11, 0, if kind == b'U' { -22 } else { -12 }, many);
+            }
         }
         WHERE.store(W_ALLOC_CALL, Relaxed);
         let res = std::panic::catch_unwind(std::panic::AssertUnwindSafe(|| unsafe {
@@ -627,6 +684,9 @@ fn hist(seed: u64, nops: u64, rest: &[String]) -> i32 {
             }
         }));
         WHERE.store(W_OTHER, Relaxed);
+        if sysfail.is_some() {
+            marker::disarm();
+        }
         refuse_off();
         // ------------------------------------------------------------------------------------
         let p = match res {
@@ -805,7 +865,8 @@ fn hist(seed: u64, nops: u64, rest: &[String]) -> i32 {
 
         // all live blocks intact? (every k ops, after every refused call, every op in a narrowing run)
         i += 1;
-        if i % k == 0 || refusing || i > k1from || i == nops {
+        let sys_sweep = sysfail.is_some() && (after.footprint != before.footprint || after.topsize != before.topsize || after.segments != before.segments);
+        if i % k == 0 || refusing || sys_sweep || i > k1from || i == nops {
             c.sweeps += 1;
             for (&addr, b) in &sh.map {
                 c.blocks_verified += 1;
@@ -819,7 +880,7 @@ fn hist(seed: u64, nops: u64, rest: &[String]) -> i32 {
                         break 'ops;
                     }
                     vh::viol(
-                        "C03/narrow/live-block-changed",
+                        &tagged("C03/narrow/live-block-changed"),
                         &format!("{{\"detected\":\"sweep after op {}\",\"block_size\":{},\"block_align\":{},\"offset\":{},\"clean_at\":{},{},\"recent_ops\":{}}}",
                             i - 1, b.size, b.align, off, last_clean, h.ctx(i - 1), h.recent_json()),
                     );
@@ -859,6 +920,9 @@ fn hist(seed: u64, nops: u64, rest: &[String]) -> i32 {
         }
     }
     vh::count("histories", 1);
+    if !syswin.is_empty() {
+        vh::count("allocator_calls_with_mremap_or_munmap_failing", sys_calls);
+    }
     vh::count("refused_alloc_calls", c.refused_calls);
     vh::count("refused_free_calls", c.refused_free_calls);
     vh::count("refused_returned_null", c.nulls_refused);
@@ -872,7 +936,7 @@ fn hist(seed: u64, nops: u64, rest: &[String]) -> i32 {
     vh::count("realloc_in_place", c.realloc_inplace);
     vh::count("realloc_moved", c.realloc_moved);
     println!("##MAXLIVE {}", sh.max_live);
-    if faultspec.is_empty() {
+    if faultspec.is_empty() && sysspec.is_empty() {
         vh::sample(
             &format!("{{\"case\":\"history\",\"seed\":{seed},\"nops\":{nops},\"style\":{style},\"ops_run\":{total},\"max_live_blocks\":{},\"profile\":{},\"distinct_cells\":{}}}",
                 sh.max_live, vh::js(if cfg!(debug_assertions) { "debug" } else { "release" }), vh::distinct_count()),
@@ -884,6 +948,19 @@ fn hist(seed: u64, nops: u64, rest: &[String]) -> i32 {
 
 static PANIC_LOC: std::sync::Mutex<String> = std::sync::Mutex::new(String::new());
 
+/// "C03/<op>/<what>" -> "C03/<op>/mremap-fails/<what>" once the monitor has failed such calls in this history
+fn tagged(sig: &str) -> String {
+    let tag = fault_tag();
+    if tag.is_empty() {
+        return sig.to_string();
+    }
+    let mut it = sig.splitn(3, '/');
+    match (it.next(), it.next(), it.next()) {
+        (Some(a), Some(b), Some(c)) => format!("{a}/{b}{tag}/{c}"),
+        _ => sig.to_string(),
+    }
+}
+
 // ---------------------------------------------------------------------------------------------
 // batch: plan + run children
 struct Agg {
@@ -894,10 +971,20 @@ struct Agg {
     viol_sigs: BTreeMap<String, u64>,
     max_live: u64,
     held: Vec<String>,
+    sysmon: String,
 }
 
 fn run_child(exe: &std::path::Path, seed: u64, nops: u64, extra: &[String], agg: &mut Agg, sample_quota: usize) -> (i32, Option<u64>) {
-    let mut cmd = std::process::Command::new(exe);
+    // histories with s= windows run under the ptrace monitor
+    let traced = extra.iter().any(|e| e.starts_with("s=")) && !agg.sysmon.is_empty();
+    let log = format!("/tmp/c03-sysmon-{}.log", std::process::id());
+    let mut cmd = if traced {
+        let mut c = std::process::Command::new(&agg.sysmon);
+        c.args(["--log", &log, "--timeout-s", "900", "--idle-ms", "0", "--"]).arg(exe);
+        c
+    } else {
+        std::process::Command::new(exe)
+    };
     cmd.arg("hist").arg(seed.to_string()).arg(nops.to_string());
     for e in extra {
         cmd.arg(e);
@@ -909,6 +996,27 @@ fn run_child(exe: &std::path::Path, seed: u64, nops: u64, extra: &[String], agg:
             return (-1, None);
         }
     };
+    if traced {
+        // what did the monitor really fail? ("S seq tgid tid nr a0..a5 ret i")
+        if let Ok(t) = std::fs::read_to_string(&log) {
+            for l in t.lines() {
+                if l.starts_with("S ") && l.ends_with(" i") {
+                    let nr = l.split(' ').nth(4).unwrap_or("");
+                    let name = match nr {
+                        "25" => "monitor_failed_mremap_calls",
+                        "11" => "monitor_failed_munmap_calls",
+                        _ => continue,
+                    };
+                    *agg.counts.entry(name.to_string()).or_insert(0) += 1;
+                }
+            }
+        }
+        let _ = std::fs::remove_file(&log);
+        if out.status.code() == Some(124) || out.status.code() == Some(125) {
+            vh::inconclusive(&format!("sysmon watchdog/error ({:?}) for seed={seed} nops={nops} {extra:?}", out.status.code()));
+            return (-1, None);
+        }
+    }
     let text = String::from_utf8_lossy(&out.stdout);
     let mut narrow = None;
     let mut reported = false;
@@ -941,7 +1049,7 @@ fn run_child(exe: &std::path::Path, seed: u64, nops: u64, extra: &[String], agg:
     let code = out.status.code();
     for v in held_viols {
         let sig = v.split(' ').nth(1).unwrap_or("").to_string();
-        if sig == "C03/narrow/live-block-changed" && code == Some(6) {
+        if sig.starts_with("C03/narrow") && sig.ends_with("/live-block-changed") && code == Some(6) {
             // handled by the caller (narrowing re-run); kept as fallback
             agg.held.push(v);
             continue;
@@ -984,7 +1092,7 @@ fn run_planned(exe: &std::path::Path, seed: u64, nops: u64, extra: &[String], ag
             // not reproduced with per-op sweeps (status c2): report what was seen
             let _ = c2;
             for h in held {
-                println!("{}", h.replace("C03/narrow/live-block-changed", "C03/unattributed/live-block-changed"));
+                println!("{}", h.replacen("C03/narrow", "C03/unattributed", 1));
             }
         }
     } else if code != 0 && code != 3 && code != 4 && code != 5 && code >= 0 {
@@ -994,10 +1102,13 @@ fn run_planned(exe: &std::path::Path, seed: u64, nops: u64, extra: &[String], ag
 
 fn batch(seed: u64, budget: u64, rest: &[String]) {
     let mut thorough = false;
+    let mut sysmon = String::new();
     let (mut shard, mut nshard) = (0u64, 1u64);
     for a in rest {
         if let Some(v) = a.strip_prefix("tier=") {
             thorough = v == "thorough";
+        } else if let Some(v) = a.strip_prefix("sysmon=") {
+            sysmon = v.to_string();
         } else if let Some(v) = a.strip_prefix("shard=") {
             if let Some((i, n)) = v.split_once('/') {
                 shard = i.parse().unwrap_or(0);
@@ -1007,7 +1118,8 @@ fn batch(seed: u64, budget: u64, rest: &[String]) {
     }
     disable_aslr_for_children();
     let exe = std::env::current_exe().expect("current_exe");
-    let mut agg = Agg { evals: 0, counts: BTreeMap::new(), distinct: BTreeSet::new(), samples: Vec::new(), viol_sigs: BTreeMap::new(), max_live: 0, held: Vec::new() };
+    let mut agg = Agg { evals: 0, counts: BTreeMap::new(), distinct: BTreeSet::new(), samples: Vec::new(), viol_sigs: BTreeMap::new(), max_live: 0, held: Vec::new(), sysmon: String::new() };
+    agg.sysmon = sysmon;
     let mut r = Rng::new(seed.wrapping_mul(1_000_003).wrapping_add(shard));
     // `budget` = number of plain histories for this shard
     let debug = cfg!(debug_assertions);
@@ -1051,6 +1163,30 @@ fn batch(seed: u64, budget: u64, rest: &[String]) {
             positions += j;
         }
         *agg.counts.entry("short_histories_with_refusal_at_every_op_index".into()).or_insert(0) += 1;
+    }
+    // 4. trim-heavy histories under the ptrace monitor, which fails mremap / munmap inside the allocator calls:
+    //    for the whole history, and at sampled op indices only
+    if !agg.sysmon.is_empty() {
+        let n_sys = if thorough { budget.max(4) } else { 2 };
+        for sno in 0..n_sys {
+            let hseed = seed.wrapping_mul(9_000).wrapping_add(900_000 + shard * 1000 + sno);
+            let nops = if thorough { *r.pick(&[300u64, 600, 1500]) } else { *r.pick(&[250u64, 400]) };
+            let style = if sno % 4 == 3 { "style=2" } else { "style=5" };
+            let kinds: &[&str] = if thorough || (shard + sno) % 2 == 0 { &["r", "u", "b", "R", "U"] } else { &["r", "b"] };
+            for kind in kinds {
+                run_planned(&exe, hseed, nops, &[format!("s=0+{nops}:{kind}"), style.to_string()], &mut agg);
+                *agg.counts.entry("histories_with_mremap_or_munmap_failing_throughout".into()).or_insert(0) += 1;
+            }
+            // k-th call: the failure only around sampled single ops / short runs
+            let mut ws = Vec::new();
+            for _ in 0..30 {
+                let start = r.below(nops);
+                let len = if r.chance(1, 3) { r.range(2, 30) } else { 1 };
+                ws.push(format!("{start}+{len}:{}", r.pick(&["r", "r", "u", "b", "R"])));
+            }
+            run_planned(&exe, hseed, nops, &[format!("s={}", ws.join(",")), style.to_string()], &mut agg);
+            *agg.counts.entry("histories_with_mremap_or_munmap_failing_at_sampled_calls".into()).or_insert(0) += 1;
+        }
     }
     vh::eval(agg.evals);
     for (k, v) in &agg.counts {
